@@ -1533,3 +1533,17 @@ func lemmaSliceConcat(seq Sequence, c int) Sequence {
 //@   ensures r <==> (forall k in 0..len(b.(Joined)): locLess(a, b.(Joined)[k]))
 //@   loop 2: invariant forall k in 0..idx2: locLess(a, b.(Joined)[k])
 //@   loop 2: decreases len(b.(Joined)) - idx2
+
+// asComplete, one level: a range loses both partial markers and keeps its ends; other leaf
+// kinds and complements are returned as they are.
+//@ func asComplete@ranged(loc Location) (out Location)
+//@   prop C03
+//@   requires is(loc, Ranged)
+//@   ensures is(out, Ranged) && out.(Ranged).Start == loc.(Ranged).Start && out.(Ranged).End == loc.(Ranged).End &&
+//@      !out.(Ranged).Partial.Partial5 && !out.(Ranged).Partial.Partial3
+//@   assigns nothing
+//@ func asComplete@other(loc Location) (out Location)
+//@   prop C03
+//@   requires is(loc, Point) || is(loc, Between) || is(loc, Ambiguous) || is(loc, Complemented)
+//@   ensures out == loc
+//@   assigns nothing
